@@ -306,6 +306,15 @@ Definition activity_name (a : activity) : text := v_target_name a.
 Definition activity_kind_ok (k : text) : bool :=
   text_eqb k s_create || text_eqb k s_announce || text_eqb k s_like || text_eqb k s_dislike.
 
+(* ---------------------------------------------------------------- timestamps *)
+(* Tangible.Timestamp() - what a feed orders by.  Times are Unix seconds; Go's zero time.Time is ZERO_TIME. *)
+Definition ZERO_TIME : Z := -62135596800.
+Definition post_timestamp (created : fval Z) : Z := match created with FOk t => t | _ => ZERO_TIME end.
+Definition actor_timestamp (joined : fval Z) : Z := match joined with FOk t => t | _ => ZERO_TIME end.
+(* an activity without its own date borrows its target's; with an unreadable one it has none *)
+Definition activity_timestamp (created : fval Z) (target : Z) : Z :=
+  match created with FOk t => t | FAbsent => target | FErr _ => ZERO_TIME end.
+
 (* ---------------------------------------------------------------- failures *)
 Definition failure_name (msg : text) : text := problem col msg.
 Definition failure_string (msg : text) (w : Z) : text := wrap (problem col msg) w.
